@@ -770,13 +770,13 @@ Proof.
   rewrite (map_ext _ _ E). apply digest_string_roundtrip_nonneg. exact Hd.
 Qed.
 
-(* the model of the pinned tree *)
+(* Digest's Display through BFieldElement's Display (the pinned tree): stated about the explicit printer, so
+   that this file compiles whichever printer `digest_elem_to_string` currently denotes *)
 Lemma digest_display_roundtrip_refuted :
-  exists d, wf_digest d /\ digest_from_str (digest_to_string d) <> Some d.
+  exists d, wf_digest d /\ digest_from_str (digest_to_string_with bfe_display d) <> Some d.
 Proof.
-  exists [P - 1; 0; 0; 0; 0]. split.
-  - split; [reflexivity|]. unfold canon_val. rewrite P_val. repeat constructor; lia.
-  - vm_compute. discriminate.
+  destruct digest_string_display_refuted as (d & Hw & Hn). exists d. split; [exact Hw|].
+  rewrite Hn. discriminate.
 Qed.
 
 (* strictness of FromStr for Digest *)
